@@ -12,7 +12,14 @@ impl AppCounters {
     pub(crate) fn from_update_interval(update: i64) -> Self {
         AppCounters {
             df_count: BTreeMap::new(),
-            timestamp: chrono::Utc::now() + chrono::Duration::seconds(update),
+            // an interval too large for chrono means "never refresh" / "always refresh"
+            timestamp: chrono::Duration::try_seconds(update)
+                .and_then(|d| chrono::Utc::now().checked_add_signed(d))
+                .unwrap_or(if update > 0 {
+                    DateTime::<Utc>::MAX_UTC
+                } else {
+                    DateTime::<Utc>::MIN_UTC
+                }),
             cleanup_count: 0u32,
         }
     }
